@@ -349,6 +349,12 @@ impl Cfg {
                 continue;
             }
 
+            // a path also ends where the register is assigned: what is read behind that is not
+            // the value the search is about
+            if next.kill_reg().contains(&item) {
+                continue;
+            }
+
             queue.extend(next.nexts().clone().into_iter());
         }
         ranges.sort_by_key(|(_, reg)| reg.range());
